@@ -807,9 +807,11 @@ Qed.
 (* a test that consists of one check statement: what C01_failures_once / C01_summary_true then say about it *)
 Lemma single_check_test i ln kd a f l :
   let t := mkTest false true ln [] [SCheckK kd a f l] [] [] [] in
-  want_checks t = counted kd a /\ want_fails i t = (if passes kd a then [] else [mkF i f l 0]) /\
-  want_events i t = [(i, 0%N, 0%N)] ++ [] \/ True.
-Proof. right. exact I. Qed.
+  want_checks t = counted kd a /\ want_fails i t = (if passes kd a then [] else [mkF i f l 0]) /\ want_events i t = [(i, 1%N, 0%N)].
+Proof.
+  unfold want_checks, want_fails, want_events, phases, completes. cbn [t_setup t_body t_teardown t_pre t_post forallb app flat_map map fst snd executed is_pass].
+  destruct kd, a; repeat split; reflexivity.
+Qed.
 
 (* what [executed] and [want_events] say, in words *)
 Lemma executed_prefix l :
@@ -993,6 +995,31 @@ Example ex_ok_test : ok_test true false (at_rep 0 (nth 1 ex_tests (mkRTest false
 Definition ex_scn_nothrow : scenario := mkScn (mkCfg false false false true 1) [nth 0 ex_tests (mkRTest false true 0 [] [] [] [] []); nth 2 ex_tests (mkRTest false true 0 [] [] [] [] [])].
 Example ex_valid_noexc : valid false ex_scn_nothrow = true. Proof. vm_compute. reflexivity. Qed.
 Example ex_build_independent : run true ex_scn_nothrow = run false ex_scn_nothrow. Proof. vm_compute. reflexivity. Qed.
+
+(* check kinds: a zero-length binary comparison with different operands, the macro in front of a true comparison (not counted),
+   assertCompare itself (counted), a failing assertBitsEqual in another file, then statements that must not run; a failing C-interface
+   check in the teardown.  4 checks are counted (binary-zero, compare, bits, the C int one), the failures sit at the locations given. *)
+Definition ex_kinds : scenario :=
+  mkScn (mkCfg true false false false 1)
+        [ mkRTest false true 10 [RS (SCheckK KLongs true 0 11)]
+                  [RS (SCheckK KBinaryZero false 0 12); RS (SCheckK MCompare true 0 13); RS (SCheckK KCompare true 0 14);
+                   RS (SCheckK KBits false 1 15); RS SCheck]
+                  [RS (SCheckK CInt false 0 17); RS SCheck] [] [] ].
+Example ex_kinds_valid : valid true ex_kinds = true /\ valid false ex_kinds = true. Proof. split; vm_compute; reflexivity. Qed.
+Example ex_kinds_spec : spec ex_kinds (run true ex_kinds) = true /\ run true ex_kinds = run false ex_kinds. Proof. split; vm_compute; reflexivity. Qed.
+Example ex_kinds_obs :
+  map (fun r => (r_fails r, match r_summary r with Some m => (m_ok m, m_nfail m, m_checks m) | None => (false, None, 0%N) end)) (o_reps (run true ex_kinds))
+  = [([mkF 0 1 15 0; mkF 0 0 17 0], (false, Some 2%N, 5%N))].
+Proof. vm_compute. reflexivity. Qed.
+(* an observation that reports the assertBitsEqual failure at the line of the TEST, or that does not count the zero-length
+   comparison, is rejected by the oracle *)
+Example ex_kinds_wrong_line_rejected :
+  spec ex_kinds (mkObs false (Some 2) (map (fun r => mkRep (r_events r) [mkF 0 0 10 0; mkF 0 0 17 0] (r_after r) (r_summary r) (r_counters r)) (o_reps (run true ex_kinds)))) = false.
+Proof. vm_compute. reflexivity. Qed.
+Example ex_kinds_uncounted_rejected :
+  spec ex_kinds (mkObs false (Some 2) (map (fun r => mkRep (r_events r) (r_fails r) (r_after r) (Some (mkSum false (Some 2%N) 1 1 4 0 0)) (r_counters r)) (o_reps (run true ex_kinds)))) = false.
+Proof. vm_compute. reflexivity. Qed.
+Example ex_checkk_step : completes [SCheck; SCheckK MCompare true 0 13] = true. Proof. reflexivity. Qed.
 
 (* a program whose behaviour depends on the repetition: the body fails only in repetition 0 (a static flag), the plugin complains
    only in repetition 1; -r3.  Repetitions 0 and 1 are not OK, the last one is: the returned value is not zero. *)
